@@ -832,10 +832,10 @@ func routeWalkRule(o *Ob) {
 		}
 	}
 	if o.Check(push != nil, "walk-push", "the children of a visited node are not put on the work list", vis) {
-		if l := e.LoopOf(push); l != nil && l != outer {
+		if l := e.LoopOf(push); l != nil && l.Header != outer.Header {
 			o.Check(e.CoversAll(l, pushColl) && len(e.EarlyExits(l)) == 0 && !loopBackWithout(o, l, IsInstr(push), nil), "walk-all", "a child can be left off the work list", push)
 		}
-		o.Check(!loopBackWithout(o, outer, IsInstr(push), nil) || e.LoopOf(push) != outer, "walk-push-skip", "the children of a visited node can be left off the work list", push)
+		o.Check(!loopBackWithout(o, outer, IsInstr(push), nil) || e.LoopOf(push).Header != outer.Header, "walk-push-skip", "the children of a visited node can be left off the work list", push)
 	}
 }
 
